@@ -79,6 +79,18 @@ def run(ctx):
                 second = [t for t in comps if any(_is(c, "sig") for c in t)]
                 neg = [c for c in flat if c.op == "call" and B.cname(c) == "Neg::neg"]
                 has_neg = len(neg) == 1 and has_gen and bool(second) and any(c in second[0] for c in neg)
+                # decided on the bilinear normal form when the pair list is literal (array or new-Vec + pushes): the product
+                # is e(H(msg,dst), pk) * e(sig, G)^-1 up to inversion, wherever the negation is written
+                from ..core import poly as PL
+                from . import equations as EQ
+
+                ps_ = PL.pairs_of(strip_sites(T_.a[1][0])) if T_.a[1] else None
+                if ps_ is not None:
+                    got_ = PL.named(PL.bilinear(ps_, EQ.std_atom()))
+                    eq_ok = got_ is not None and PL.up_to_sign(got_) == PL.up_to_sign({("a", "pk"): 1, ("G", "sig"): -1})
+                    has_neg = eq_ok
+                    has_hash = has_pk = has_sig = eq_ok
+                    comps = comps[:2] if eq_ok else comps
                 ctx.ob("E5.equation", fk, has_hash and has_pk and has_sig and has_neg and len(comps) == 2, "pairing input = %s (want {(H(msg,dst), pk), (sig, -G)} with exactly one negated factor)" % show(strip_sites(T_), 6), where=where(f, b), sample={"pairs": show(strip_sites(T_), 6)})
         if fk.endswith("aggregate_verify"):
             # final push((sig, -G)) and per-entry push((hash(msg,dst), pk))
